@@ -14,10 +14,11 @@ Open Scope Z_scope.
 
 (* ---- the tie to the source ---- *)
 
-(* a generation that is no longer s.followc returns errNoLongerFollowing before it touches the server at the top of
-   followStep, in followCheckSome and in followHandleCommand (each right after s.mu is taken); it is NOT stopped
-   between followCheckSome's return and the first caught-up test, nor between followHandleCommand's return and the
-   caught-up test of the read loop (see c06g_stale_flag_refuted) *)
+(* a generation that is no longer s.followc returns errNoLongerFollowing before it touches the server in all five
+   places where an attempt comes back from the network or from another locked section: at the top of followStep, in
+   followCheckSome and followHandleCommand (right after s.mu is taken), between followCheckSome's return and the first
+   caught-up test, and in the read loop before faofsz / the flag are written (the last two since
+   proposed_fixes/C06-stale-generation-flag.diff; the code before it is [pinned_cfg], see c06g_stale_flag_pinned_refuted) *)
 Theorem c06g_guards_from_source :
   cfg_of follow_step follow_check_some follow_handle_command = proved_cfg.
 Proof. exact gen_guards_transcribed. Qed.
@@ -69,17 +70,23 @@ Proof.
 Qed.
 Print Assumptions c06g_stale_attempts_inert.
 
-(* the caught-up flag.  With the source as it is, every step of a stale attempt except the first caught-up test after
-   AOF (GAof) and the caught-up update of the read loop (GFlag) leaves the flag as it is or clears it *)
-Theorem c06g_stale_flag_partial :
-  forall digest md5 digest_eqb csz st st0 app cfg aof ops (w : world st) e i a,
+(* the caught-up flag: no step of a stale attempt raises it (a stale attempt may still clear it: GClear) ... *)
+Theorem c06g_stale_flag_inert :
+  forall digest md5 digest_eqb csz st st0 app aof ops (w : world st) e i a,
   actor e = Some i -> nth_error (w_atts st w) i = Some a -> a_gen a <> w_cur st w ->
-  (forall l, e <> GAof i l) -> e <> GFlag i ->
-  w_cup st (gstep digest md5 digest_eqb csz st st0 app cfg aof ops w e) = true -> w_cup st w = true.
-Proof. exact stale_flag_other_steps. Qed.
-Print Assumptions c06g_stale_flag_partial.
+  w_cup st (gstep digest md5 digest_eqb csz st st0 app proved_cfg aof ops w e) = true -> w_cup st w = true.
+Proof. exact stale_flag_inert. Qed.
+Print Assumptions c06g_stale_flag_inert.
 
-(* were those two places guarded like the other three, no step of a stale attempt could raise the flag *)
+(* ... and no sequence of steps of stale attempts does: if the follower reports caught up after them it did before *)
+Theorem c06g_stale_flag_inert_run :
+  forall digest md5 digest_eqb csz st st0 app aof ops es (w : world st),
+  Forall (stale_ev (gens st w) (w_cur st w)) es ->
+  w_cup st (grun digest md5 digest_eqb csz st st0 app proved_cfg aof ops w es) = true -> w_cup st w = true.
+Proof. exact stale_flag_inert_run. Qed.
+Print Assumptions c06g_stale_flag_inert_run.
+
+(* in general: whenever the two places after the round trips are guarded (c06g_guards_from_source says they are) *)
 Theorem c06g_stale_flag_if_guarded :
   forall digest md5 digest_eqb csz st st0 app cfg aof ops (w : world st) e i a,
   c_aofg cfg = true -> c_flagg cfg = true ->
@@ -166,28 +173,32 @@ Proof. vm_compute. repeat split. Qed.
    attempt's followCheckSome finds a log that is not A's, starts over, and F - following B, caught up, its current
    attempt drained - is empty.  (This is what the harness scenario corpus-stale-generation-held-at-server runs.) *)
 Theorem c06g_no_recheck_refuted :
-  let cfg := {| c_top := true; c_check := false; c_cmd := true; c_aofg := false; c_flagg := false |} in
+  let cfg := {| c_top := true; c_check := false; c_cmd := true; c_aofg := true; c_flagg := true |} in
   let w := trun c_checksumsz cfg true (w0 []) repoint_while_held in
   w_cur toy_st w = 2%nat /\ gens toy_st w = [1; 2]%nat /\ drained_att w 1 = true /\ w_cup toy_st w = true /\
   d_mem toy_st (w_data toy_st w) <> replay toy_st [] toy_app lb /\ d_mem toy_st (w_data toy_st w) = [].
 Proof. vm_compute. repeat split. discriminate. Qed.
 Print Assumptions c06g_no_recheck_refuted.
 
-(* the source as it is: the first caught-up test after AOF is not guarded.  Leader A has an empty log; generation 1
-   passes followCheckSome and waits for A's reply to AOF 0; FOLLOW B: generation 2 has handled one of B's two records;
-   A's reply arrives: `pos >= aofSize` (0 >= 0) holds for generation 1 and the SERVER-wide flag is raised although the
-   current generation has not been handed B's log.  Open finding C06-stale-generation-raises-caught-up
-   (harness: corpus-stale-generation-held-at-aof-empty-leader) *)
-Theorem c06g_stale_flag_refuted :
+(* the code before proposed_fixes/C06-stale-generation-flag.diff ([pinned_cfg]): the first caught-up test after AOF was
+   not guarded.  Leader A has an empty log; generation 1 passes followCheckSome and waits for A's reply to AOF 0; FOLLOW
+   B: generation 2 has handled one of B's two records; A's reply arrives: `pos >= aofSize` (0 >= 0) holds for generation 1
+   and the SERVER-wide flag is raised although the current generation has not been handed B's log.  With the repaired
+   source (proved_cfg) the same step ends generation 1 and the flag stays off.  Finding
+   C06-stale-generation-raises-caught-up (fixed); regression: harness corpus-stale-generation-held-at-aof-empty-leader *)
+Theorem c06g_stale_flag_pinned_refuted :
   let es := [GFollow; GTopCheck 0; GClear 0; GServer 0 []; GCheck 0 [];
              GFollow; GTopCheck 1; GClear 1; GServer 1 lb; GCheck 1 lb; GAof 1 lb; GDeliver 1] in
-  let w1 := trun c_checksumsz proved_cfg true (w0 []) es in
-  let w2 := gstep bytes idm bytes_eqb c_checksumsz toy_st [] toy_app proved_cfg true proved_ops w1 (GAof 0 []) in
+  let w1 := trun c_checksumsz pinned_cfg true (w0 []) es in
+  let w2 := gstep bytes idm bytes_eqb c_checksumsz toy_st [] toy_app pinned_cfg true proved_ops w1 (GAof 0 []) in
+  let v1 := trun c_checksumsz proved_cfg true (w0 []) es in
+  let v2 := gstep bytes idm bytes_eqb c_checksumsz toy_st [] toy_app proved_cfg true proved_ops v1 (GAof 0 []) in
   gens toy_st w1 = [1; 2]%nat /\ w_cur toy_st w1 = 2%nat /\ w_cup toy_st w1 = false /\
   w_cup toy_st w2 = true /\ drained_att w2 1 = false /\
-  d_mem toy_st (w_data toy_st w2) <> replay toy_st [] toy_app lb.
+  d_mem toy_st (w_data toy_st w2) <> replay toy_st [] toy_app lb /\
+  v1 = w1 /\ w_cup toy_st v2 = false /\ phase_of toy_st v2 0 = Some PDead.
 Proof. vm_compute. repeat split. discriminate. Qed.
-Print Assumptions c06g_stale_flag_refuted.
+Print Assumptions c06g_stale_flag_pinned_refuted.
 
 (* the source as it is, ONE generation: the resume position is verified against the leader's log in followCheckSome
    (on a connection of its own) and sent with AOF afterwards; nothing keeps the leader from replacing its log in
